@@ -14,7 +14,9 @@ MODEL_VIEW = ("fun c => match c with Plain c => model_view Run.GenBuses.low_rom_
 THEOREMS = ["C04_physical", "C04_mirror", "C04_ram", "C04_unmapped", "C04_advance", "C04_advance_ram",
             "C04_add_0", "C04_add_add", "C04_map_covers", "C04_lorom", "C04_hirom",
             "C04_live_lorom", "C04_live_hirom", "C04_advance_sub", "C04_add_0_sub", "C04_add_add_sub",
-            "C04_hirom_not_covers", "C04_hirom_covers_sub", "C04_hirom_advance", "C04_advance_any"]
+            "C04_hirom_not_covers", "C04_hirom_covers_sub", "C04_hirom_advance", "C04_advance_any",
+            "C04_oracle_phys", "C04_oracle_phys_model_passes", "C04_oracle_sweep_model_passes", "C04_oracle_sweep_needs_input"]
+PROOF_HEADER = "From A816 Require Import Properties.C04Oracle Properties.C04."
 # model-tie modules whose correspondence is part of this property's check: user-defined mappings enter through the
 # `.map` statement, whose reading (numbers in decimal / 0x / 0b, attribute pairs) is the parser's
 TIES = ['PARSE']
